@@ -1,4 +1,356 @@
 package main
 
-func streamAlloc(thorough bool) {}
-func streamRace(thorough bool)  {}
+// Runtime streams: allocation measurements (C17) and the concurrency / pool stress run (C14).
+// These observe the Go runtime, which no Lean model exhibits; they are testing, and are labelled so.
+
+import (
+	"fmt"
+	"math"
+	"runtime"
+	"runtime/debug"
+	"strconv"
+	"strings"
+	"sync"
+
+	gocvss20 "github.com/pandatix/go-cvss/20"
+	gocvss30 "github.com/pandatix/go-cvss/30"
+	gocvss31 "github.com/pandatix/go-cvss/31"
+	gocvss40 "github.com/pandatix/go-cvss/40"
+)
+
+var sinkS string
+var sinkF float64
+var sinkE error
+var sinkP any
+
+// minimum number of heap allocations of f over n runs, prep() run (unmeasured) before each
+func minAllocs(n int, prep, f func()) uint64 {
+	var a, b runtime.MemStats
+	best := uint64(math.MaxUint64)
+	for i := 0; i < n; i++ {
+		if prep != nil {
+			prep()
+		}
+		runtime.ReadMemStats(&a)
+		f()
+		runtime.ReadMemStats(&b)
+		if d := b.Mallocs - a.Mallocs; d < best {
+			best = d
+		}
+	}
+	return best
+}
+
+// per-version closures working on a pre-built object (construction is outside the measurement)
+type meas struct {
+	parse  func(s string)
+	vector func()
+	get    func(abv string)
+	set    func(abv, val string)
+	score  func()
+	nomen  func()
+	rating func(x float64)
+}
+
+func (v *version) measurer(b []byte) meas {
+	switch v.name {
+	case "20":
+		c := gocvss20.VerifFromBytes([4]byte(b))
+		return meas{
+			parse:  func(s string) { sinkP, sinkE = gocvss20.ParseVector(s) },
+			vector: func() { sinkS = c.Vector() },
+			get:    func(a string) { sinkS, sinkE = c.Get(a) },
+			set:    func(a, val string) { sinkE = c.Set(a, val) },
+			score:  func() { sinkF = c.BaseScore() + c.TemporalScore() + c.EnvironmentalScore() + c.Impact() + c.Exploitability() },
+		}
+	case "30":
+		c := gocvss30.VerifFromBytes([6]byte(b))
+		return meas{
+			parse:  func(s string) { sinkP, sinkE = gocvss30.ParseVector(s) },
+			vector: func() { sinkS = c.Vector() },
+			get:    func(a string) { sinkS, sinkE = c.Get(a) },
+			set:    func(a, val string) { sinkE = c.Set(a, val) },
+			score:  func() { sinkF = c.BaseScore() + c.TemporalScore() + c.EnvironmentalScore() + c.Impact() + c.Exploitability() },
+			rating: func(x float64) { sinkS, sinkE = gocvss30.Rating(x) },
+		}
+	case "31":
+		c := gocvss31.VerifFromBytes([6]byte(b))
+		return meas{
+			parse:  func(s string) { sinkP, sinkE = gocvss31.ParseVector(s) },
+			vector: func() { sinkS = c.Vector() },
+			get:    func(a string) { sinkS, sinkE = c.Get(a) },
+			set:    func(a, val string) { sinkE = c.Set(a, val) },
+			score:  func() { sinkF = c.BaseScore() + c.TemporalScore() + c.EnvironmentalScore() + c.Impact() + c.Exploitability() },
+			rating: func(x float64) { sinkS, sinkE = gocvss31.Rating(x) },
+		}
+	default:
+		c := gocvss40.VerifFromBytes([9]byte(b))
+		return meas{
+			parse:  func(s string) { sinkP, sinkE = gocvss40.ParseVector(s) },
+			vector: func() { sinkS = c.Vector() },
+			get:    func(a string) { sinkS, sinkE = c.Get(a) },
+			set:    func(a, val string) { sinkE = c.Set(a, val) },
+			score:  func() { sinkF = c.Score() },
+			nomen:  func() { sinkS = c.Nomenclature() },
+			rating: func(x float64) { sinkS, sinkE = gocvss40.Rating(x) },
+		}
+	}
+}
+
+// A ver kind arg1 arg2 arg3 | allocs
+func streamAlloc(thorough bool) {
+	runtime.GOMAXPROCS(1)
+	debug.SetGCPercent(-1)
+	n := 20
+	nObj := 12
+	if thorough {
+		n = 60
+		nObj = 150
+	}
+	emitA := func(v *version, kind, a1, a2, a3 string, k uint64) {
+		emit("A "+v.name+" "+kind+" "+a1+" "+a2+" "+a3, strconv.FormatUint(k, 10))
+	}
+	for _, v := range versions {
+		zero := make([]byte, v.n)
+		// objects: zero, each optional metric alone with each of its values, everything defined, random ones
+		objs := [][]byte{zero}
+		for _, mt := range v.metrics {
+			for _, val := range mt.values {
+				b, err := v.set(zero, mt.abv, val)
+				if err == nil {
+					objs = append(objs, b)
+				}
+			}
+		}
+		for idx := 1; idx <= 4; idx++ {
+			b := zero
+			for _, mt := range v.metrics {
+				nb, err := v.set(b, mt.abv, mt.values[idx%len(mt.values)])
+				if err == nil {
+					b = nb
+				}
+			}
+			objs = append(objs, b)
+		}
+		for i := 0; i < nObj; i++ {
+			objs = append(objs, v.randomWF())
+		}
+		bads := []string{"", "garbage", v.header + "/AV:N", strings.Replace(v.vector(objs[len(objs)-1]), ":", ":Z", 3), v.vector(objs[1]) + "/", v.vector(objs[2]) + "/ZZ:Q"}
+		for _, b := range objs {
+			ms := v.measurer(b)
+			vec := v.vector(b)
+			emitA(v, "vector", hexB(b), "-", "-", minAllocs(n, nil, ms.vector))
+			emitA(v, "parse", "-", hexS(vec), "-", minAllocs(n, func() { ms.parse(vec) }, func() { ms.parse(vec) }))
+			emitA(v, "score", hexB(b), "-", "-", minAllocs(n, nil, ms.score))
+			if ms.nomen != nil {
+				emitA(v, "nomen", hexB(b), "-", "-", minAllocs(n, nil, ms.nomen))
+			}
+			mt := pick(v.metrics)
+			emitA(v, "get", hexB(b), hexS(mt.abv), "-", minAllocs(n, nil, func() { ms.get(mt.abv) }))
+			val := pick(mt.values)
+			emitA(v, "set", hexB(b), hexS(mt.abv), hexS(val), minAllocs(n, nil, func() { ms.set(mt.abv, val) }))
+			emitA(v, "set", hexB(b), hexS(mt.abv), hexS("Zz"), minAllocs(n, nil, func() { ms.set(mt.abv, "Zz") }))
+		}
+		// a successful parse right after a rejected one (multi-step histories)
+		for _, bad := range bads {
+			for _, b := range objs[:8] {
+				ms := v.measurer(b)
+				vec := v.vector(b)
+				emitA(v, "parse", hexS(bad), hexS(vec), "-", minAllocs(n, func() { ms.parse(vec); ms.parse(bad) }, func() { ms.parse(vec) }))
+			}
+		}
+		if v.rating != nil {
+			ms := v.measurer(zero)
+			for _, x := range []float64{0, 0.05, 3.9, 4, 9.9, 10, 11, -1, math.Inf(1)} {
+				emitA(v, "rating", strconv.FormatUint(math.Float64bits(x), 16), "-", "-", minAllocs(n, nil, func() { ms.rating(x) }))
+			}
+		}
+	}
+}
+
+// C14: concurrent use, poisoned pool, stability of returned strings, independence of copies.
+// Every line: `C scenario detail | same` (or `diff …`).
+func streamRace(thorough bool) {
+	workers, rounds := 16, 200
+	if thorough {
+		rounds = 3000
+	}
+	for _, v := range versions {
+		// inputs and their sequential results
+		var inputs []string
+		for i := 0; i < 64; i++ {
+			w := v.randomValid()
+			s := v.render(w)
+			if i%4 == 3 {
+				s = mutateBytes(s)
+			}
+			inputs = append(inputs, s)
+		}
+		expect := make([]string, len(inputs))
+		for i, s := range inputs {
+			expect[i] = v.fullOutcome(s)
+		}
+		shared := v.randomWF() // shared read-only object
+		sharedExpect := v.observe(shared)
+		var wg sync.WaitGroup
+		diffs := make([]string, workers)
+		for w := 0; w < workers; w++ {
+			wg.Add(1)
+			go func(w int) {
+				defer wg.Done()
+				own := make([]byte, v.n)
+				for r := 0; r < rounds; r++ {
+					i := (r*7 + w*13) % len(inputs)
+					if got := v.fullOutcome(inputs[i]); got != expect[i] {
+						diffs[w] = fmt.Sprintf("parse %s: %s != %s", hexS(inputs[i]), got, expect[i])
+						return
+					}
+					if got := v.observe(shared); got != sharedExpect {
+						diffs[w] = "shared object observed differently: " + got
+						return
+					}
+					mt := v.metrics[(r+w)%len(v.metrics)]
+					nb, err := v.set(own, mt.abv, mt.values[r%len(mt.values)])
+					if err != nil {
+						diffs[w] = "set failed"
+						return
+					}
+					own = nb
+				}
+			}(w)
+		}
+		wg.Wait()
+		res := "same"
+		for _, d := range diffs {
+			if d != "" {
+				res = "diff " + strings.ReplaceAll(d, " ", "_")
+			}
+		}
+		emit("C "+v.name+" concurrent "+strconv.Itoa(workers)+"x"+strconv.Itoa(rounds), res)
+
+		// a string returned by Vector() never changes afterwards
+		var kept []string
+		var keptCopy []string
+		var objs [][]byte
+		for i := 0; i < 200; i++ {
+			b := v.randomWF()
+			s := v.vector(b)
+			kept = append(kept, s)
+			keptCopy = append(keptCopy, string(append([]byte{}, s...)))
+			objs = append(objs, b)
+		}
+		for i := 0; i < 2000; i++ {
+			b := objs[i%len(objs)]
+			_ = v.vector(b)
+			_, _ = v.parse(inputs[i%len(inputs)])
+			mt := pick(v.metrics)
+			_, _ = v.set(b, mt.abv, pick(mt.values))
+		}
+		runtime.GC()
+		res = "same"
+		for i := range kept {
+			if kept[i] != keptCopy[i] {
+				res = "diff vector-string-changed"
+			}
+		}
+		emit("C "+v.name+" vector-stable 200", res)
+
+		// a copy of an object is independent of the original (value semantics through the public API)
+		res = "same"
+		for i := 0; i < 200; i++ {
+			if d := v.copyIndependent(); d != "" {
+				res = "diff " + d
+			}
+		}
+		emit("C "+v.name+" copy-independent 200", res)
+	}
+	// v2 pool: poisoned buffers must not influence results
+	poison := func() []string {
+		p := make([]string, 14)
+		for i := range p {
+			p[i] = pick([]string{"AV:N", "E:H", "garbage", "", "AR:H", "RC:C", "A:C/X"})
+		}
+		return p
+	}
+	n := 2000
+	if thorough {
+		n = 40000
+	}
+	res := "same"
+	for i := 0; i < n; i++ {
+		s := v20.render(v20.randomValid())
+		switch i % 5 {
+		case 1:
+			s = mutateBytes(s)
+		case 2:
+			s = s[:rng.Intn(len(s)+1)]
+		}
+		clean := v20.fullOutcome(s)
+		for k := 0; k < 4; k++ {
+			gocvss20.VerifPoolPut(poison())
+		}
+		if got := v20.fullOutcome(s); got != clean {
+			res = "diff poisoned-pool:" + hexS(s)
+		}
+	}
+	emit("C 20 poisoned-pool "+strconv.Itoa(n), res)
+}
+
+func (v *version) fullOutcome(s string) string {
+	return guard(func() string {
+		b, err := v.parse(s)
+		if err != nil {
+			return "err " + v.errCode(err)
+		}
+		return "ok " + hexB(b)
+	})
+}
+
+func (v *version) observe(b []byte) string {
+	return guard(func() string {
+		sc := v.scores(b)
+		parts := []string{v.vector(b), v.gets(b)}
+		for _, x := range sc {
+			parts = append(parts, bits(x))
+		}
+		return strings.Join(parts, " ")
+	})
+}
+
+// through the real types: copy, mutate the copy, original unchanged (and vice versa)
+func (v *version) copyIndependent() string {
+	b := v.randomWF()
+	mt := pick(v.metrics)
+	val := pick(mt.values)
+	switch v.name {
+	case "20":
+		c := gocvss20.VerifFromBytes([4]byte(b))
+		d := *c
+		_ = d.Set(mt.abv, val)
+		if gocvss20.VerifBytes(c) != [4]byte(b) {
+			return "original changed"
+		}
+	case "30":
+		c := gocvss30.VerifFromBytes([6]byte(b))
+		d := *c
+		_ = d.Set(mt.abv, val)
+		if gocvss30.VerifBytes(c) != [6]byte(b) {
+			return "original changed"
+		}
+	case "31":
+		c := gocvss31.VerifFromBytes([6]byte(b))
+		d := *c
+		_ = d.Set(mt.abv, val)
+		if gocvss31.VerifBytes(c) != [6]byte(b) {
+			return "original changed"
+		}
+	case "40":
+		c := gocvss40.VerifFromBytes([9]byte(b))
+		d := *c
+		_ = d.Set(mt.abv, val)
+		if gocvss40.VerifBytes(c) != [9]byte(b) {
+			return "original changed"
+		}
+	}
+	return ""
+}
